@@ -163,6 +163,18 @@ pub fn part_c03_inlined(tier: Tier) -> Part {
     for p in &progs {
         explore_program(p, &[Cand::Fn("main".into())], &cfg, &mut part, deadline);
     }
+    // tail-position recursion: start in the innermost activation (breakpoint on its `return`) and
+    // step outwards; every return lands on a line number the step has just left in the callee
+    match crate::corpus::build_many(&[vec![Stmt::TailRec(3), Stmt::Assign]], &cfgs).and_then(prepare) {
+        Ok(tp) => {
+            for p in &tp {
+                if let Some(l) = p.line_of("tail.2") {
+                    explore_program(p, &[Cand::Line(l)], &cfg, &mut part, deadline);
+                }
+            }
+        }
+        Err(e) => part.violate("C03:machinery:corpus", e, json!({})),
+    }
     if Instant::now() > deadline {
         part.exhaustive = false;
         part.caps_hit.push("wall cap".into());
